@@ -90,6 +90,10 @@ func (d deepInstr) bindUp(g rawGuard, j int) []rawGuard {
 func (d deepInstr) atoms() []Atom {
 	var out []Atom
 	for _, g := range d.rawGuards() {
+		if inner := helperAtoms(g); len(inner) > 0 {
+			out = append(out, inner...)
+			continue
+		}
 		if at, ok := condAtom(g.Cond, g.Positive); ok {
 			out = append(out, at.canon())
 		}
